@@ -8,6 +8,8 @@ package main
 import (
 	"bytes"
 	"fmt"
+	"io"
+	"os"
 	"runtime"
 	"sync"
 
@@ -124,4 +126,68 @@ func sameBytes(a, b []byte) bool {
 		}
 	}
 	return true
+}
+
+// fileWriters: the configured writer may be a file or a pipe (what a command-line front end
+// passes): every byte must have reached it when the SB store is over, whatever its value and
+// whether or not a newline follows.
+func fileWriters(c *rig.Ctx) {
+	c.Require("file_writer_cases")
+	c.Part("file-writer", c.N(16, 160), func(i int64, r *rig.Rng) {
+		dir := os.Getenv("VERIF_WORK")
+		if dir == "" {
+			dir = os.TempDir()
+		}
+		var want []byte
+		n := 1 + r.Intn(300)
+		for k := 0; k < n; k++ {
+			v := r.U8()
+			if r.Chance(1, 12) {
+				v = 0x0a
+			}
+			want = append(want, v)
+		}
+		if i%2 == 0 && want[len(want)-1] == 0x0a {
+			want = append(want, 0x41) // ends without a newline
+		}
+		var got []byte
+		if i%4 < 2 {
+			f, err := os.CreateTemp(dir, "c23-serial-*.out")
+			if err != nil {
+				c.Note("file-writer: cannot create a temporary file: %v", err)
+				return
+			}
+			defer os.Remove(f.Name())
+			m := rig.MustNew(rig.BlankROM(0, 0, 0), rig.Opts{SerialWriter: f})
+			for _, v := range want {
+				m.Mem.Write(0xff01, v)
+			}
+			got, _ = os.ReadFile(f.Name())
+			f.Close()
+		} else {
+			pr, pw, err := os.Pipe()
+			if err != nil {
+				c.Note("file-writer: cannot create a pipe: %v", err)
+				return
+			}
+			m := rig.MustNew(rig.BlankROM(0, 0, 0), rig.Opts{SerialWriter: pw})
+			done := make(chan []byte)
+			go func() {
+				b, _ := io.ReadAll(pr)
+				done <- b
+			}()
+			for _, v := range want {
+				m.Mem.Write(0xff01, v)
+			}
+			pw.Close() // the owner closes its pipe; the emulator was never asked to flush anything
+			got = <-done
+			pr.Close()
+		}
+		if !bytes.Equal(got, want) {
+			c.Violate("file-writer-"+classOf(got, want), fmt.Sprintf("serial writer is an *os.File (%s): %s", []string{"file", "file", "pipe", "pipe"}[i%4], diff(got, want)), nil)
+			return
+		}
+		c.Count("file_writer_cases", 1)
+		c.Case(rig.Hash(uint64(i), r.U64(), 9))
+	})
 }
